@@ -549,11 +549,39 @@ def main(ctx):
                 gbad.append((q, d, why, h, m))
     ctx.count(len(gprogs))
     ctx.stats["goroutine_interrupt"] = gstat
+    def _known_async(q, h, m):
+        f1 = dict(FIELD_RE.findall(h.split(" # ")[0]))
+        mev = dict(FIELD_RE.findall(m.split(" # ")[0])).get("ev", "")
+        return "depth" in f1 and mev[len(f1.get("ev", "")):].lstrip(",").startswith("g") and " call " in q
+    gnew = [b for b in gbad if not _known_async(b[0], b[3], b[4])]
+    ctx.stats["goroutine_interrupt"]["hit_known_async_start_defect"] = len(gbad) - len(gnew)
     ctx.obligation("corr:interrupt-from-another-goroutine(prefix of the model run, queue dropped, next call clean)", "correspondence",
-                   gmod is not None and not gbad, "; ".join("%s [%s]: %s" % (q, d, w) for q, d, w, _, _ in gbad[:3])[:900])
-    for q, d, w, h, m in gbad[:2]:
+                   gmod is not None and not gnew, "; ".join("%s [%s]: %s" % (q, d, w) for q, d, w, _, _ in gnew[:3])[:900])
+    KNOWN_ASYNC = "c10:interrupt-in-async-start-getter:queue-never-drained"
+    rest_bad = []
+    for q, d, w, h, m in gbad:
+        # the known defect: the interrupt lands in a `then`/`constructor` getter that asyncRunner.step runs while an async
+        # function STARTS; symptom: call depth left > 0 and the next event the model predicts is a thenable getter
+        f1 = dict(FIELD_RE.findall(h.split(" # ")[0]))
+        mev = dict(FIELD_RE.findall(m.split(" # ")[0])).get("ev", "")
+        nxt = mev[len(f1.get("ev", "")):].lstrip(",")
+        if "depth" in f1 and nxt.startswith("g") and " call " in q:
+            ctx.violation(KNOWN_ASYNC, "interrupt (from another goroutine, released at %s) inside a then-getter run by asyncRunner.step "
+                          "during an async function's start leaves the call stack non-empty: %s" % (d, q),
+                          {"kind": "schedule", "program": q, "release": d, "expected": "prefix of: " + m, "observed": h})
+        else:
+            rest_bad.append((q, d, w, h, m))
+    for q, d, w, h, m in rest_bad[:2]:
         ctx.violation("c10:goroutine-interrupt", "interrupt from another goroutine (timing dependent, released at event:delay_us %s): %s: %s" % (d, w, q),
                       {"kind": "schedule", "program": q, "release": d, "expected": "prefix of: " + m, "observed": h, "difference": w})
+    # deterministic probe of the same defect (known finding; fixes/C10-interrupt-in-async-start.diff)
+    _, pr, _ = ctx.run_lines([harness], ["PROBE async-start-interrupt"], timeout=300)
+    ctx.stats["probe_async_start_interrupt"] = pr[0] if pr else None
+    if pr and any(("depth=0" not in x) or ('next-job="job"' not in x) or ("q=0" not in x) for x in pr[0].split(" | ")):
+        ctx.violation(KNOWN_ASYNC, "after an interrupt raised in a then/constructor getter that runs while an async function starts, "
+                      "the runtime keeps a call-stack frame and never drains its promise job queue again: %s" % pr[0],
+                      {"kind": "program", "program": "(async function(){ await {get then(){ INT(); return undefined }} })()  then  "
+                       "Promise.resolve(1).then(job)", "expected": "depth=0, next job runs, queue empty", "observed": pr[0]})
     # ------------------------------------------------------------------ AsyncContextTracker contract probes (func.go:41-43)
     # "for each invocation of Grab there will be exactly one subsequent invocation of Resumed and then Exited (assuming the
     # Promise is fulfilled or rejected)": every promise of these programs settles and no interrupt occurs.
